@@ -125,6 +125,13 @@ func (e *Engine) sliceVC(o *Oblig, full bool, getValues []string) string {
 	var b bytes.Buffer
 	b.WriteString("; obligation " + o.name + "\n; " + o.Pos.String() + "\n")
 	b.WriteString(prelude(bs))
+	for _, d := range e.extraDecls {
+		// (declare-fun name ...): include when the name occurs
+		nm := strings.Fields(d)[1]
+		if strings.Contains(bs, "("+nm+" ") {
+			b.WriteString(d + "\n")
+		}
+	}
 	declared := map[string]bool{}
 	used := map[string]bool{}
 	for _, x := range syms(bs) {
